@@ -215,7 +215,7 @@ def plan_c02(pid, tier, seed, ncpu):
 
     def jobs(bindirs, workdir, known):
         js = con_jobs(bindirs["dbg"], workdir, known, pid, "baton", seed, max(1, ncpu * 3 // 4), programs=progs, schedules=scale(tier, 20, 50))
-        js += con_jobs(bindirs["dbg"], workdir, known, pid, "stress", seed, max(1, ncpu // 4), programs=stress, schedules=scale(tier, 10, 20))
+        js += con_jobs(bindirs["dbg"], workdir, known, pid, "stress", seed, max(1, ncpu // 4), programs=stress, schedules=scale(tier, 5, 20))
         # full-speed chase (no injected delays): windows inside get/insert that no switch point may expose
         js += con_jobs(bindirs["dbg"], workdir, known, pid, "chase", seed, 2, programs=scale(tier, 300, 8000), schedules=3)
         # a one-thread history is an interleaving too: un-synced reads/writes, idle deadlines, invalidations
